@@ -141,20 +141,30 @@ void ReadRecordHeader(
     fseek(f, pos, SEEK_SET);
 #endif
 
+    /* a file that simply ends is no I/O error (errno is 0): without this check, callers
+       loop forever on the stale header byte of the previous record */
+
     if (fread(Header, 1, 1, f) != 1) {
+        if (feof(f)) {
+            FormatError(Name, catgetmessage(&MsgCat, Num_FormatTruncatedMsg));
+        }
         ChkIO(Name);
     }
     if ((*Header != FileHeaderEnd) && (*Header != FileHeaderStartAdr)) {
         if ((*Header == FileHeaderDataRec) || (*Header == FileHeaderRDataRec)
             || (*Header == FileHeaderRelocRec) || (*Header == FileHeaderRRelocRec)) {
-            if (fread(CPU, 1, 1, f) != 1) {
+            if ((fread(CPU, 1, 1, f) != 1) || (fread(Segment, 1, 1, f) != 1)
+                || (fread(Gran, 1, 1, f) != 1)) {
+                if (feof(f)) {
+                    FormatError(Name, catgetmessage(&MsgCat, Num_FormatTruncatedMsg));
+                }
                 ChkIO(Name);
             }
-            if (fread(Segment, 1, 1, f) != 1) {
-                ChkIO(Name);
-            }
-            if (fread(Gran, 1, 1, f) != 1) {
-                ChkIO(Name);
+
+            /* segment indexes name tables, granularity is a divisor */
+
+            if ((*Segment >= SegCount) || (*Gran == 0)) {
+                FormatError(Name, catgetmessage(&MsgCat, Num_FormatBadRecordHeaderMsg));
             }
         } else if (*Header <= 0x7f) {
             *CPU     = *Header;
